@@ -83,7 +83,8 @@ def run(ctx, rep):
             if dst == "Gray8" and m is None:
                 m = match(ron, ("call", "*Gray8::new", "_", (("call", "*conversion::luma", "_", ("?c",)),)))
                 ok = m is not None and src_ok(m["?c"])
-            ok = ok and (src == "Rgb888" or ("From<" + PC + "rgb_color::" + src + "> for " + PC + "rgb_color::Rgb888") in m["?c"][1])
+            ok = ok and (src == "Rgb888" or ("From<" + PC + "rgb_color::" + src + "> for " + PC + "rgb_color::Rgb888") in m["?c"][1]
+                         or m["?c"][1] == "<%srgb_color::Rgb888 as core::convert::From<%srgb_color::%s>>::from" % (PC, PC, src))     # `other.into()` resolved by its type arguments
             rep.check(ok, "R13.1", key, "rgb->gray must be Gray8::new(luma(Rgb888::from(c))).into(); found %s" % show(ro, maxd=6), at=f.span, fn=f.path)
             n_conv += 1
             continue
@@ -153,11 +154,34 @@ def run(ctx, rep):
 
     # R13.3 luma
     lu = prog.fn_by_path(PC + "conversion::luma")
+
+    def extract(ro):
+        m = match(ro, ("bin", "Div", ("bin", "Add", "?sum", ("const", "?round")), ("const", "?div")))
+        coeff = {}
+        ok = m is not None
+        if ok:
+            def terms(t):
+                mm = match(t, ("bin", "Add", "?a", "?b"))
+                if mm is not None and match(t, ("bin", "Mul", "_", ("const", "_"))) is None:
+                    return terms(mm["?a"]) + terms(mm["?b"])
+                return [t]
+            for t in terms(m["?sum"]):
+                mm = match(t, ("bin", "Mul", "?x", ("const", "?k")))
+                if mm is None:
+                    ok = False
+                    continue
+                acc = [n[1].split("::")[-1] for n in walk(mm["?x"]) if n[0] == "call" and n[1].endswith(("::r", "::g", "::b"))]
+                if len(acc) != 1 or not any(n[0] == "param" and n[1] == 1 for n in walk(mm["?x"])):
+                    ok = False
+                    continue
+                coeff[acc[0]] = mm["?k"]
+            ok = ok and set(coeff) == {"r", "g", "b"} and sum(coeff.values()) == m["?div"] and m["?round"] * 2 == m["?div"] and coeff["g"] > coeff["r"] > coeff["b"]
+        return ok, coeff
     ro = fold(strip_refs(Origins(lu).return_origin()))
-    m = match(ro, ("bin", "Div", ("bin", "Add", "?sum", ("const", "?round")), ("const", "?div")))
-    if m is None or not any(n[0] == "bin" and n[1] == "Mul" for n in walk(m["?sum"])) or any(n[0] == "call" and n[1].split("::")[-1] in ("sum", "fold") for n in walk(m["?sum"])):
-        # an iterator chain over the channels (`iter().zip(WEIGHTS).map(..).sum()`): the single path summary carries the
-        # sum it stands for (A.9: sequences of statically known elements)
+    ok, coeff = extract(ro)
+    if len(coeff) != 3:
+        # an iterator chain / array `map` over the channels: the single path summary carries the sum it stands for
+        # (A.9: sequences of statically known elements)
         try:
             from mirq import paths as _pp
             ss = _pp.Paths(prog, inline=lambda g: prog.is_new(g)).of(lu)
@@ -165,30 +189,11 @@ def run(ctx, rep):
                 r2 = fold(strip_refs(ss[0].ret))
                 while r2[0] == "cast":
                     r2 = r2[1]
-                m2 = match(r2, ("bin", "Div", ("bin", "Add", "?sum", ("const", "?round")), ("const", "?div")))
-                if m2 is not None:
-                    ro, m = r2, m2
+                ok2, coeff2 = extract(r2)
+                if len(coeff2) == 3:
+                    ro, ok, coeff = r2, ok2, coeff2
         except _pp.Unsupported:
             pass
-    coeff = {}
-    ok = m is not None
-    if ok:
-        def terms(t):
-            mm = match(t, ("bin", "Add", "?a", "?b"))
-            if mm is not None and match(t, ("bin", "Mul", "_", ("const", "_"))) is None:
-                return terms(mm["?a"]) + terms(mm["?b"])
-            return [t]
-        for t in terms(m["?sum"]):
-            mm = match(t, ("bin", "Mul", "?x", ("const", "?k")))
-            if mm is None:
-                ok = False
-                continue
-            acc = [n[1].split("::")[-1] for n in walk(mm["?x"]) if n[0] == "call" and n[1].endswith(("::r", "::g", "::b"))]
-            if len(acc) != 1 or not any(n == ("param", 1, "color") for n in walk(mm["?x"])):
-                ok = False
-                continue
-            coeff[acc[0]] = mm["?k"]
-        ok = ok and set(coeff) == {"r", "g", "b"} and sum(coeff.values()) == m["?div"] and m["?round"] * 2 == m["?div"] and coeff["g"] > coeff["r"] > coeff["b"]
     rep.check(ok, "R13.3", "luma", "luma must be (kr*r + kg*g + kb*b + div/2) / div with kr+kg+kb = div (gray in -> same gray out) and kg > kr > kb; found coefficients %s in %s" % (coeff, show(ro, maxd=8)),
               at=lu.span, fn=lu.path, detail=coeff, status="refuted" if len(coeff) == 3 else "undecided")   # no coefficients: a shape the extraction cannot read (an iterator chain, a loop)
     rep.sample({"rule": "R13.3", "luma_coefficients": coeff})
